@@ -7,10 +7,12 @@ import (
 	"fmt"
 	"math"
 	"os"
+	"runtime/debug"
 	"sort"
 	"testing"
 
 	"github.com/ChainSafe/gossamer/pkg/trie/inmemory"
+	"github.com/ChainSafe/gossamer/pkg/trie/node"
 	"github.com/ChainSafe/gossamer/zz_verif/vcommon"
 )
 
@@ -40,6 +42,8 @@ func (o op2) String() string {
 		return fmt.Sprintf("clearprefixlimit %s limit=%d", vcommon.Hex(o.key), o.limit)
 	case "sweep":
 		return "limit-sweep " + vcommon.Hex(o.key)
+	case "sweepf":
+		return "limit-sweep-with-follow-ups " + vcommon.Hex(o.key)
 	}
 	return o.kind
 }
@@ -56,10 +60,81 @@ type env2 struct {
 	nviol    int
 	descBad  bool
 	target   int // number of keys the generator tries to keep in the trie
+
+	dead     bool          // a call panicked: the trie is not used any more
+	rootOff  bool          // the spec-trie reference failed its validation: no root comparison
+	rootBad  bool          // a root mismatch was already reported in this history
+	unmerged bool          // diagnostic walker already counted in this history
+	r        *vcommon.Rand // generator of follow-up operations (nil in scripted histories)
+	keys     [][]byte      // keys the generator writes (follow-ups put removed keys back)
+	trk      []*cutTrack   // partial limited clears of this history (coverage of what followed them)
+	lastCut  *cutTrack     // set by the step that was a partial limited clear
+	follow   *followCtx    // follow-up sequence in progress (generated histories)
 }
 
 func newEnv2(c *vcommon.Case, ver int, probes, prefixes [][]byte) *env2 {
-	return &env2{c: c, t: newTrie(ver), m: vcommon.NewOrdMap(), ver: ver, probes: probes, prefixes: prefixes}
+	specOnce.Do(func() { specErr = specValidate() })
+	e := &env2{c: c, t: newTrie(ver), m: vcommon.NewOrdMap(), ver: ver, probes: probes, prefixes: prefixes}
+	if specErr != nil { // never a violation: the root comparison is switched off and counted
+		e.rootOff = true
+		c.Count("root_comparison_skipped_reference_failed_validation", 1)
+	}
+	if os.Getenv("VERIF_C02_NOROOT") != "" {
+		// mutant validation only: shows what the operation sequences find on their own
+		// (the floor root_of_observed_contents_compared then makes the run inconclusive at best)
+		e.rootOff = true
+	}
+	return e
+}
+
+// guard runs f; a panic of the code under test is a violation that carries
+// the operation history (the recorder's own recover only has the stack).
+func (e *env2) guard(what string, f func()) (ok bool) {
+	defer func() {
+		if p := recover(); p != nil {
+			st := string(debug.Stack())
+			if len(st) > 3000 {
+				st = st[:3000]
+			}
+			e.dead = true
+			e.violation("panic", fmt.Sprintf("%s: panic: %v", what, p), e.witness(map[string]any{"op": what, "stack": st}))
+			ok = false
+		}
+	}()
+	f()
+	return true
+}
+
+// checkRoot: Hash() must be the spec root of the contents the trie itself
+// lists (not of the model: after a known-finding hit or a content violation
+// the two differ, the structure must still be canonical). The root property
+// is C01's; here a mismatch means a node that the ordered-map view cannot see
+// (a branch that was not merged with its only child, a branch without value
+// and children, a stale partial key) and that a later call can trip over.
+// Without any map-level deviation in the same step the class is structure-root.
+func (e *env2) checkRoot(o op2, nviolBefore int) {
+	if e.rootOff || e.rootBad {
+		return
+	}
+	e.c.Eval(1)
+	got, err := e.t.Hash()
+	if err != nil {
+		e.violation("hash-error", o.String()+": Hash(): "+err.Error(), e.witness(nil))
+		return
+	}
+	obs := mapFromEntries(e.t)
+	want := vcommon.SpecRoot(obs, e.ver)
+	e.c.Count("root_of_observed_contents_compared", 1)
+	if bytes.Equal(got[:], want[:]) {
+		return
+	}
+	e.rootBad = true
+	if e.nviol != nviolBefore { // already reported at the map level in this step
+		e.c.Count("note_root_mismatch_in_a_step_with_map_level_violation", 1)
+		return
+	}
+	e.violation("structure-root", fmt.Sprintf("%s: every map-level observation agrees with the ordered map, but Hash()=%x while the spec root (V%d) of the listed contents is %x: the trie holds a non-canonical node",
+		o, got[:], e.ver, want[:]), e.witness(map[string]any{"op": o.String(), "observed_entries": mapDump(obs), "shape": shapeOf(e.t).sig.String()}))
 }
 
 func (e *env2) violation(class, msg string, w map[string]any) {
@@ -229,7 +304,7 @@ func (e *env2) classify(o op2) {
 		if len(o.key) == 0 {
 			c.Count("empty_key_ops", 1)
 		}
-	case "clear", "climit", "sweep":
+	case "clear", "climit", "sweep", "sweepf":
 		match := e.m.KeysWithPrefix(o.key)
 		if zeroLowNibble(o.key) {
 			c.Count("prefix_zero_low_nibble", 1)
@@ -268,14 +343,14 @@ func (e *env2) classify(o op2) {
 	}
 }
 
-func (e *env2) apply(o op2) {
-	e.classify(o)
-	e.hist = append(e.hist, o.String())
+// exec performs the call of o on the trie and settles its outcome against the
+// model. It reports whether the observable state has to be compared next.
+func (e *env2) exec(o op2) (observe bool) {
 	switch o.kind {
 	case "put":
 		if err := e.t.Put(o.key, o.val); err != nil {
 			e.violation("error", o.String()+": "+err.Error(), e.witness(nil))
-			return
+			return false
 		}
 		sm := e.m.Clone()
 		sm.Put(o.key, o.val)
@@ -283,7 +358,7 @@ func (e *env2) apply(o op2) {
 	case "del":
 		if err := e.t.Delete(o.key); err != nil {
 			e.violation("error", o.String()+": "+err.Error(), e.witness(nil))
-			return
+			return false
 		}
 		sm := e.m.Clone()
 		sm.Delete(o.key)
@@ -291,7 +366,7 @@ func (e *env2) apply(o op2) {
 	case "clear":
 		if err := e.t.ClearPrefix(o.key); err != nil {
 			e.violation("error", o.String()+": "+err.Error(), e.witness(nil))
-			return
+			return false
 		}
 		e.settle(o, clearCands(e.m, o.key), false, 0, false)
 	case "climit":
@@ -299,66 +374,176 @@ func (e *env2) apply(o op2) {
 		d, all, err := e.t.ClearPrefixLimit(o.key, o.limit)
 		if err != nil {
 			e.violation("error", o.String()+": "+err.Error(), e.witness(nil))
-			return
+			return false
 		}
 		e.settle(o, cands, true, int(d), all)
+	case "reads": // no call: the whole observable state is compared once more
 	case "hash":
 		_, _ = e.t.Hash() // fills the Merkle value caches, later mutations start from clean nodes
-		return
+		return false
 	case "snap":
 		e.t = e.t.Snapshot() // continue on a snapshot: later mutations take the copy-on-write paths
-		return
+		return false
 	case "flush":
 		_ = flushTrie(e.t) // nodes become clean (what StoreTrie does after a block)
-		return
+		return false
 	case "sweep":
-		e.sweep(o.key)
+		e.sweep(o.key, false)
+		return false
+	case "sweepf":
+		e.sweep(o.key, true)
+		return false
+	}
+	return true
+}
+
+func (e *env2) apply(o op2) {
+	if e.dead {
 		return
 	}
-	e.checkReads()
-	if _, bad := descendantsBroken(rootNode(e.t)); bad != "" && !e.descBad {
+	nv := e.nviol
+	before := e.m // exec replaces e.m by a new map, this one stays as it is
+	e.lastCut = nil
+	e.classify(o)
+	e.hist = append(e.hist, o.String())
+	observe := false
+	if !e.guard(o.String(), func() { observe = e.exec(o) }) || !observe {
+		return
+	}
+	if !e.guard("reads after "+o.String(), e.checkReads) {
+		return
+	}
+	if !e.guard("Hash() after "+o.String(), func() { e.checkRoot(o, nv) }) {
+		return
+	}
+	e.track(o, before)
+	root := rootNode(e.t)
+	if _, bad := descendantsBroken(root); bad != "" && !e.descBad {
 		e.descBad = true
 		e.c.Count("internal_descendants_counter_wrong_after_op_"+o.kind, 1)
 		if os.Getenv("VERIF_TRIE_DEBUG") != "" {
 			fmt.Fprintf(os.Stderr, "DESC %s after %v\n", bad, e.hist)
 		}
 	}
-	_, _ = e.t.Hash()
+	if bad := nonCanonicalBranch(root); bad != "" && !e.unmerged {
+		// diagnostic only (the verdict comes from the root comparison and from later calls)
+		e.unmerged = true
+		e.c.Count("internal_non_canonical_branch_after_op_"+o.kind, 1)
+		if os.Getenv("VERIF_TRIE_DEBUG") != "" {
+			fmt.Fprintf(os.Stderr, "SHAPE %s after %v\n", bad, e.hist)
+		}
+	}
 	s := shapeOf(e.t)
 	e.lastSig = s.sig.String()
 	e.c.Distinct(o.kind + "|" + e.lastSig)
 }
 
+// nonCanonicalBranch describes the first branch that has no value and fewer
+// than two children ("" when there is none). Such a node is invisible to every
+// read but changes the root, and a childless one makes deleteNodesLimit panic.
+func nonCanonicalBranch(n *node.Node) string {
+	if n == nil || n.Kind() != node.Branch {
+		return ""
+	}
+	k := 0
+	for _, ch := range n.Children {
+		if ch != nil {
+			k++
+		}
+	}
+	if n.StorageValue == nil && k < 2 {
+		return fmt.Sprintf("branch with partial key %x has no value and %d children", n.PartialKey, k)
+	}
+	for _, ch := range n.Children {
+		if b := nonCanonicalBranch(ch); b != "" {
+			return b
+		}
+	}
+	return ""
+}
+
 // sweep applies ClearPrefixLimit with EVERY limit 0..matching+1 (and MaxUint32)
-// to snapshots of the current state, so all limits see the same trie.
-func (e *env2) sweep(p []byte) {
+// to copies of the current state, so all limits see the same trie. With
+// follow set, every limit that leaves some but not all matching keys is
+// continued by a follow-up sequence on the same sub-trie (see genFollow), on a
+// snapshot or on a fresh trie holding the same entries.
+func (e *env2) sweep(p []byte, follow bool) {
 	n := len(e.m.KeysWithPrefix(p))
 	if zeroLowNibble(p) {
 		if k := len(keysWithNibblePrefix(e.m, trimmedNibbles(p))); k > n {
 			n = k
 		}
 	}
-	limits := []uint32{math.MaxUint32}
-	for l := 0; l <= n+1; l++ {
-		limits = append(limits, uint32(l))
+	var limits []uint32
+	if follow {
+		for l := 1; l < n; l++ {
+			limits = append(limits, uint32(l))
+		}
+		for len(limits) > 10 { // large families: a random subset of the limits
+			i := e.r.Intn(len(limits))
+			limits = append(limits[:i], limits[i+1:]...)
+		}
+	} else {
+		limits = []uint32{math.MaxUint32}
+		for l := 0; l <= n+1; l++ {
+			limits = append(limits, uint32(l))
+		}
 	}
-	saveT, saveM, saveHist := e.t, e.m, e.hist
+	saveT, saveM, saveHist, saveTrk, saveFollow := e.t, e.m, e.hist, e.trk, e.follow
+	saveRootBad, saveDesc, saveUnm := e.rootBad, e.descBad, e.unmerged
 	for _, l := range limits {
-		e.t, e.m = saveT.Snapshot(), saveM.Clone()
-		e.hist = append(append([]string{}, saveHist...), "snapshot")
+		if e.dead {
+			break
+		}
+		e.m = saveM.Clone()
+		e.trk = cloneTracks(saveTrk)
+		e.follow = nil
+		if follow && e.r.Chance(2, 5) {
+			// a fresh trie with the same entries: nodes of the current generation, no copy-on-write
+			e.t = newTrie(e.ver)
+			ks, vs := saveM.Entries()
+			order := e.r.Perm(len(ks))
+			var desc []string
+			for _, i := range order {
+				_ = e.t.Put(ks[i], vs[i])
+				desc = append(desc, vcommon.Hex(ks[i]))
+			}
+			e.hist = append(append([]string{}, saveHist...), fmt.Sprintf("fresh trie (V%d) holding the same entries, put in the order %v", e.ver, desc))
+			e.c.Count("follow_on_fresh_trie", 1)
+		} else {
+			e.t = saveT.Snapshot()
+			e.hist = append(append([]string{}, saveHist...), "snapshot")
+		}
 		o := op2{kind: "climit", key: p, limit: l}
-		e.classify(o)
-		e.hist = append(e.hist, o.String())
-		cands := limitCands(e.m, p, l)
-		d, all, err := e.t.ClearPrefixLimit(p, l)
-		if err != nil {
-			e.violation("error", o.String()+": "+err.Error(), e.witness(nil))
+		if !follow {
+			// (kept as it was: the return values and the content decide; no reads)
+			e.classify(o)
+			e.hist = append(e.hist, o.String())
+			nv := e.nviol
+			cands := limitCands(e.m, p, l)
+			e.guard(o.String(), func() {
+				d, all, err := e.t.ClearPrefixLimit(p, l)
+				if err != nil {
+					e.violation("error", o.String()+": "+err.Error(), e.witness(nil))
+					return
+				}
+				e.settle(o, cands, true, int(d), all)
+				e.checkRoot(o, nv)
+			})
+			e.c.Count("sweep_limits", 1)
 			continue
 		}
-		e.settle(o, cands, true, int(d), all)
-		e.c.Count("sweep_limits", 1)
+		e.apply(o)
+		e.c.Count("sweep_follow_limits", 1)
+		f := e.newFollow(p, e.lastCut)
+		for f.left > 0 && !e.dead && e.nviol == 0 {
+			e.apply(e.genFollow(f))
+		}
 	}
-	e.t, e.m, e.hist = saveT, saveM, saveHist
+	e.t, e.m, e.hist, e.trk, e.follow = saveT, saveM, saveHist, saveTrk, saveFollow
+	if !e.dead {
+		e.rootBad, e.descBad, e.unmerged = saveRootBad, saveDesc, saveUnm
+	}
 }
 
 func nibblesToKey(n []byte) ([]byte, bool) {
@@ -476,6 +661,8 @@ type universe struct {
 	keys     [][]byte // keys that get written
 	probes   [][]byte // keys read after every mutation (present and absent)
 	prefixes [][]byte
+	cuts     [][]byte // group postlimit: prefixes the limited clears cut at
+	inner    [][]byte // group postlimit: positions of the inner branches (a key or not)
 }
 
 func randKey(r *vcommon.Rand, abc []byte, maxLen int) []byte {
@@ -632,6 +819,12 @@ func (e *env2) genOp(r *vcommon.Rand, u *universe) op2 {
 		}
 		return vcommon.Pick(r, u.prefixes)
 	}
+	if f := e.follow; f != nil { // a partial limited clear is being followed up on its own sub-trie
+		if f.left > 0 {
+			return e.genFollow(f)
+		}
+		e.follow = nil
+	}
 	x := r.Intn(100)
 	if e.m.Len() < e.target && r.Chance(3, 5) { // keep the trie populated: most clears must have something to bite on
 		x = 0
@@ -657,8 +850,10 @@ func (e *env2) genOp(r *vcommon.Rand, u *universe) op2 {
 			lim = math.MaxUint32
 		}
 		return op2{kind: "climit", key: p, limit: lim}
-	case x < 90:
+	case x < 88:
 		return op2{kind: "sweep", key: pickPrefix()}
+	case x < 90:
+		return op2{kind: "sweepf", key: pickPrefix()}
 	case x < 93:
 		return op2{kind: "hash"}
 	case x < 96:
@@ -728,6 +923,20 @@ func corpus2() []script2 {
 				{kind: "climit", key: b(0x11, 0x22), limit: 2}, {kind: "climit", key: b(0x11, 0x33), limit: 2},
 				{kind: "del", key: b(0x11, 0x22, 0x21)}, {kind: "clear", key: b(0x11)}},
 			prefix: [][]byte{b(0x11)}},
+		{name: "limited clear stops inside a nested branch after a sibling leaf went (merge of the outer branch must not be skipped); delete of the last key below it; limited clear again (seeded change: panic 'got branch with all nil children')",
+			ops: []op2{put(b(0x12, 0x11), 1), put(b(0x12, 0x21), 2), put(b(0x12, 0x22), 3),
+				{kind: "climit", key: b(0x12), limit: 2}, {kind: "del", key: b(0x12, 0x22)}, {kind: "climit", key: b(0x12), limit: 1}, {kind: "climit", key: b(), limit: 1}},
+			probes: [][]byte{b(0x12), b(0x12, 0x23)}, prefix: [][]byte{b(0x12, 0x20), b(0x12, 0x10)}},
+		{name: "same below a non-root branch with a value on the parent, second clear over the parent prefix must return (1,true)",
+			ops: []op2{put(b(0x12), 9), put(b(0x12, 0x34, 0x11), 1), put(b(0x12, 0x34, 0x21), 2), put(b(0x12, 0x34, 0x22), 3), put(b(0x12, 0x34, 0x23), 4), put(b(0x30), 5),
+				{kind: "climit", key: b(0x12, 0x34), limit: 2}, {kind: "del", key: b(0x12, 0x34, 0x23)}, {kind: "del", key: b(0x12, 0x34, 0x22)},
+				{kind: "climit", key: b(0x12, 0x34), limit: 2}, {kind: "climit", key: b(0x12), limit: 3}, {kind: "climit", key: b(), limit: 1}},
+			probes: [][]byte{b(0x12, 0x34)}, prefix: [][]byte{b(0x12, 0x34, 0x20), b(0x12, 0x30)}},
+		{name: "same, the sub-trie is put back after the delete and cleared with a limit again",
+			ops: []op2{put(b(0x12, 0x11), 1), put(b(0x12, 0x21), 2), put(b(0x12, 0x22), 3), put(b(0x12, 0x22, 0x05), 4),
+				{kind: "climit", key: b(0x12), limit: 2}, {kind: "del", key: b(0x12, 0x22)}, {kind: "del", key: b(0x12, 0x22, 0x05)},
+				put(b(0x12, 0x21), 6), {kind: "climit", key: b(0x12, 0x20), limit: 1}, {kind: "climit", key: b(0x12), limit: 1}, {kind: "clear", key: b(0x12)}},
+			prefix: [][]byte{b(0x12, 0x20)}},
 		{name: "limited clear with limit 0 and nothing matching",
 			ops: []op2{put(b(0x12), 1), {kind: "climit", key: b(0x55), limit: 0}, {kind: "climit", key: b(0x12), limit: 0}}},
 		{name: "hashed values (V1) through every call",
@@ -781,6 +990,18 @@ func TestVerifC02(t *testing.T) {
 	r.Floor("nextkey_of_absent_key", 1000)
 	r.Floor("get_absent", 1000)
 	r.Floor("sweep_limits", 200)
+	r.Floor("root_of_observed_contents_compared", 10000)
+	r.Floor("limited_clear_stops_inside_nested_branch", 1000)
+	r.Floor("limited_clear_stops_inside_nested_branch_after_whole_sibling_removed", 500)
+	r.Floor("limited_clear_stops_two_or_more_levels_below_the_prefix", 200)
+	r.Floor("sequence_continued_3_ops_after_partial_limited_clear", 1000)
+	r.Floor("delete_empties_subtrie_hit_by_limited_clear", 300)
+	r.Floor("delete_empties_prefix_hit_by_limited_clear", 100)
+	r.Floor("second_limited_clear_same_prefix", 500)
+	r.Floor("second_limited_clear_parent_prefix", 100)
+	r.Floor("limited_clear_over_prefix_emptied_by_deletes_after_limited_clear", 100)
+	r.Floor("put_into_subtrie_hit_by_limited_clear", 300)
+	r.Floor("sweep_follow_limits", 1000)
 
 	corpus := corpus2()
 	r.Fixed("corpus", len(corpus), func(c *vcommon.Case) { runScript2(c, corpus[c.Idx]) })
@@ -789,14 +1010,21 @@ func TestVerifC02(t *testing.T) {
 		u := genUniverse(c.R)
 		ver := c.R.Intn(2)
 		e := newEnv2(c, ver, u.probes, u.prefixes)
+		e.r, e.keys = c.R, u.keys
 		nops := c.R.Range(5, 60)
 		e.target = c.R.Range(2, 16)
-		for i := 0; i < nops && e.nviol == 0; i++ {
+		for i := 0; i < nops && e.nviol == 0 && !e.dead; i++ {
 			e.apply(e.genOp(c.R, u))
+			if e.lastCut != nil && e.follow == nil && c.R.Chance(3, 5) {
+				// the limited clear left keys behind: stay on that sub-trie for the next 2-6 operations
+				e.follow = e.newFollow(e.lastCut.q, e.lastCut)
+			}
 		}
 		c.Count("final_keys", e.m.Len())
 		c.Sample(map[string]any{"version": ver, "ops": len(e.hist), "first_ops": firstN(e.hist, 12), "final": mapDump(e.m), "shape": e.lastSig})
 	})
+
+	r.Cases("postlimit", r.Scale(400), runPostLimit)
 }
 
 func firstN(s []string, n int) []string {
